@@ -19,7 +19,7 @@ for d in sorted(glob.glob(os.path.join(V, 'seeded', '*'))):
         rc = re.search(r'exit=(\d+)', txt)
         rc = int(rc.group(1)) if rc else None
         obs = re.findall(r'failed obligation: (\S+) :: (.*)', txt)
-        repro = 'no-failing-input-found' not in txt and 'VIOLATION' in txt
+        repro = any(l.startswith('VIOLATION') and 'no-failing-input-found' not in l for l in txt.splitlines())
         det[pid] = dict(exit=rc, obligations=['%s :: %s' % (a, b[:90]) for a, b in obs[:3]], input_replayed=repro)
     meta['detected_by'] = det
     json.dump(meta, open(mp, 'w'), indent=1)
@@ -31,7 +31,8 @@ for d in sorted(glob.glob(os.path.join(V, 'seeded', '*'))):
         if det[p]['obligations']:
             first = det[p]['obligations'][0]
             break
-    rows.append('| %s | %s | %s | %s | %s | %s |' % (meta['id'], meta['breaks_property'], ', '.join(caught) or '-', ', '.join(und) or '-', ', '.join(missed) or '-', first.replace('|', '/')))
-print('| seeded change | breaks | caught by (exit 1) | undecided (exit 2) | not flagged (exit 0) | first failing obligation |')
-print('|---|---|---|---|---|---|')
+    rep = 'yes' if any(v['input_replayed'] for v in det.values()) else '-'
+    rows.append('| %s | %s | %s | %s | %s | %s | %s |' % (meta['id'], meta['breaks_property'], ', '.join(caught) or '-', ', '.join(und) or '-', ', '.join(missed) or '-', rep, first.replace('|', '/')))
+print('| seeded change | breaks | caught by (exit 1) | undecided (exit 2) | not flagged (exit 0) | counterexample reproduced on the real crate | first failing obligation |')
+print('|---|---|---|---|---|---|---|')
 print('\n'.join(rows))
